@@ -279,9 +279,14 @@ func runCheck(id, only string, noEv bool) int {
 		case "assume": // an assumed contract of a function that is not verified (trusted; listed in the evidence)
 			if hasArg(d, "iface") { // on an interface method: the name is the method's full name
 				full := d.Fn
-				if strings.HasPrefix(full, "(*") && !strings.Contains(full, "/") { // relative to this package: (*T).M
+				recvPart := full
+				if i := strings.Index(full, ")"); i > 0 {
+					recvPart = full[:i]
+				}
+				qualified := strings.Contains(recvPart, ".") // (*bytes.Buffer).M, (io.Reader).M: another package's type
+				if strings.HasPrefix(full, "(*") && !qualified { // relative to this package: (*T).M
 					full = "(*" + pp + "." + strings.TrimPrefix(full, "(*")
-				} else if strings.HasPrefix(full, "(") && !strings.Contains(full, "/") { // (T).M
+				} else if strings.HasPrefix(full, "(") && !qualified { // (T).M
 					full = "(" + pp + "." + strings.TrimPrefix(full, "(")
 				} else if !strings.Contains(full, "/") && !strings.Contains(full, ".") { // a function of this package
 					full = pp + "." + full
